@@ -122,8 +122,10 @@ func c16GenDHCP4(r *sim.Rand, tier string, cs *sim.Case) {
 		}
 		if prefix >= 2 {
 			cs.Ops = append(cs.Ops, sim.Op{K: "request", A: []int64{int64(ci)}})
-			if r.P(30) {
-				cs.Ops = append(cs.Ops, sim.Op{K: "renew", A: []int64{int64(ci)}})
+			if r.P(40) {
+				// renewal through the relay with full option 82, without option 82
+				// (unicast renewal), or with a Remote-ID but no Circuit-ID
+				cs.Ops = append(cs.Ops, sim.Op{K: "renew", A: []int64{int64(ci), int64(r.N(3))}})
 			}
 		}
 	}
@@ -362,6 +364,14 @@ func c16RunDHCP4(c *sim.Ctx) {
 			}
 			m := build(cl, dhcpv4.MessageTypeRequest)
 			m.ClientIPAddr = cl.bound
+			if cl.relayed {
+				switch op.Arg(1) {
+				case 1:
+					m.Options.Del(dhcpv4.OptionRelayAgentInformation)
+				case 2:
+					m.UpdateOption(dhcpv4.OptRelayAgentInfo(dhcpv4.OptGeneric(dhcpv4.GenericOptionCode(2), []byte("relay-7"))))
+				}
+			}
 			c.S.Join(send(m))
 			noteSessions()
 		case "end":
